@@ -471,6 +471,8 @@ def driver_regions(dump_lines, sc=None, complete=True):
         x = ' '.join(conv_tok(t) for t in l.split())
         if sc is not None and l.startswith('REGION '):
             x += ' %d' % sc['opts'][1]
+        if sc is not None and l.startswith('ALLSEG '):
+            x += ' %d' % sc['opts'][0]              # nudgeOrthogonalSegmentsConnectedToShapes (linesort merges segments)
         out.append(x)
     return out + ['ENDREGIONS %d' % (1 if complete else 0)]
 
@@ -593,9 +595,17 @@ def cp_at_moved_corner(sc, regions, cid, p):
     if not (sc['opts'][2] == 1 and float(sc['fspp']) == 0):
         return False
     for g in regions:
-        if g['unify']:
-            continue
         d = g['dim']
+        if g['unify']:
+            # variant: the unifying-stage region itself moved a segment of the connector from elsewhere exactly onto the
+            # checkpoint's coordinate (the checkpoint is the far vertex of the adjoining segment, which collapses to zero
+            # length; the detour through the checkpoint becomes a collinear spur and is simplified away)
+            if g['end'] and g['end']['sat']:
+                for j, s in enumerate(g['segs']):
+                    if s['conn'] == cid and not s['fixed'] and not s['cp'] and s['pos'] != p[d] \
+                            and g['end']['pos'][j] == p[d] and p[1 - d] in (s['lo'], s['hi']):
+                        return True
+            continue
         for s in g['segs']:
             if s['conn'] == cid and not s['fixed'] and not s['cp'] and s['pos'] == p[d] and p[1 - d] in (s['lo'], s['hi']) \
                     and (s['min'] < s['pos'] or s['pos'] < s['max']):
@@ -631,8 +641,7 @@ def sandwiched(regions, a, b):
     """the failing pair (a, b) sits in a nudging-stage region that ended unsatisfied and whose generated constraints
     contain a chain  fixed -> movable -> fixed  of positive gaps with the first fixed variable not left of the second
     (infeasible for every positive separation: the processing order put a movable segment between two immovable
-    segments at the same position), the movable segment belonging to one connector of the pair and one of the two fixed
-    segments to the other"""
+    segments at the same position); an unsatisfied region writes nothing back, so every overlapping pair inside it stays"""
     for g in regions:
         if g['unify'] or not g['end'] or g['end']['sat']:
             continue
@@ -644,9 +653,7 @@ def sandwiched(regions, a, b):
             if g1 > 0 and vs[l1][0] == 1 and vs[m][0] == 0:
                 for (m2, r2, g2, e2) in cs:
                     if m2 == m and g2 > 0 and vs[r2][0] == 1 and vs[l1][1] >= vs[r2][1]:
-                        cm, cf = owner.get(m), (owner.get(l1), owner.get(r2))
-                        if (cm == a and b in cf) or (cm == b and a in cf):
-                            return True
+                        return True         # the region cannot be satisfied: none of its pairs is separated
     return False
 
 
@@ -738,3 +745,33 @@ def overlap_created_across_dimensions(r, a, b, tol=1e-6):
                         if a in cs and b in cs:
                             return False
     return found
+
+
+def order_against_limits(regions, a, b):
+    """the failing pair (a, b) sits in a nudging-stage region that ended unsatisfied and whose last solved system holds a
+    positive-gap constraint  L + gap <= R  between segments of two different connectors that no placement within the two
+    segments' own limits can meet (lowest position of L + gap > highest position of R): the processing order contradicts
+    the channel limits, the region cannot be satisfied and none of its pairs is separated.  Neither of the two segments is
+    fixed in the sense of fixedOrder() (that case - a one-side-limited segment sorted on the wrong side of a fixed one - is
+    what CmpLineOrder's fixed-order rule exists to prevent and is NOT covered by this finding)"""
+    for g in regions:
+        if g['unify'] or not g['end'] or g['end']['sat'] or not g['iters']:
+            continue
+        byvar = {s['var']: s for s in g['segs']}
+        conns = set(s['conn'] for s in g['segs'])
+        if a not in conns or b not in conns:
+            continue
+        cons = (g['iters'][-2].get('cons_after') if len(g['iters']) >= 2 else None) or g['cons']
+        for (l, r, gap, eq) in cons:
+            if gap > 0 and l in byvar and r in byvar and byvar[l]['conn'] != byvar[r]['conn']:
+                sl, sr = byvar[l], byvar[r]
+                # neither segment is "fixed" in the sense of NudgingShiftSegment::fixedOrder (fixed, or limited on both
+                # sides within the nudging distance): CmpLineOrder's rule for ordering around a fixed segment does not
+                # apply to the pair, the order came from the other rules
+                if any(x['fixed'] or (x['pos'] - x['min'] < g['base'] and x['max'] - x['pos'] < g['base']) for x in (sl, sr)):
+                    continue
+                lowest = sl['pos'] if sl['fixed'] else sl['min']
+                highest = sr['pos'] if sr['fixed'] else sr['max']
+                if lowest + gap > highest:
+                    return True
+    return False
